@@ -7,7 +7,7 @@ def c01_biguint_subtraction():
             L.append("sub2_ge_shape!(c01_%s_sub2_ge_%d_%d, %d, %d);" % (tier(q), la, lb, la, lb))
             if not (lb == 0):  # a < b impossible when b is empty
                 L.append("sub2_lt_shape!(c01_%s_sub2_lt_%d_%d_mp, %d, %d);" % (tier(q), la, lb, la, lb))
-    qv = {(1, 1), (2, 1), (2, 2), (3, 2), (6, 5), (5, 5), (1, 0)}
+    qv = {(1, 1), (2, 1), (2, 2), (3, 2), (6, 5), (5, 5), (1, 0), (3, 1), (4, 2)}
     shapes = [(a, b) for a in range(0, 5) for b in range(0, a + 1)] + [(5, 5), (6, 5), (6, 6), (10, 5), (11, 10), (11, 11), (11, 6)]
     for (la, lb) in shapes:
         q = (la, lb) in qv
